@@ -15,11 +15,14 @@ RULE = ('rasters <= 12x12 (mostly <= 8x8) over alphabets of 1-4 values from stru
         'holes touching the border, checkerboards / diagonal lines = 8-connected pinches) plus noise, shapes 1x1, 1xN, Nx1, 2xN; '
         'int32/int64/uint8/uint32/float32/float64 rasters (float values dyadic, spaced >= 0.25 so _is_close is equality); mask '
         'absent / all-true / random / structured / all-false with bool/int/float mask dtype; connectivity 4 and 8; transform absent '
-        'or dyadic affine (scales, flips, rotations, shears, offsets). Thorough additionally enumerates every 0/1 raster of every '
+        'or dyadic affine (scales, flips, rotations, shears, offsets); 30% of the float rasters get +inf/-inf/NaN cells (inf equals only '
+        'itself, NaN nothing). Thorough additionally enumerates every 0/1 raster of every '
         'shape with <= 12 cells (<= 9 with a mask). A case is non-trivial when it has >= 1 unmasked cell; distinct by JSON encoding.')
 TRUSTED = [
     'raster values are embedded into Z by a per-case power-of-two scale; _is_close is modelled at exact equality — for float '
     'rasters the generators only use dyadic values spaced >= 0.25 with magnitude <= 16, where abs(a-b) <= 1e-8+1e-5*abs(a) is equality',
+    '+inf / -inf cells are embedded as the sentinels +-2^45 and the k-th NaN cell as 2^46+k (distinct from everything, like NaN != NaN); '
+    'this matches the FIXED _is_close (fixes/C15-is-close-inf.diff: infinite values match only themselves)',
     'np.empty_like garbage in the extra column of the nx == 1 workaround is modelled as 0 (never read: the mask test precedes every value read)',
     'np.empty point buffer of _follow: modelled as the list of emitted points; the model fails if pass 1 emits a different number of points '
     'than pass 0 allocated for (proved never to happen: C15_follow_passes_agree)',
@@ -31,6 +34,8 @@ TRUSTED = [
 ASSUMPTIONS = ['NumPy-backed DataArray, return_type="numpy"; mask values are 0/1 (False/True); +-inf cells equal only themselves, NaN cells equal nothing (IEEE ==)',
                'float rasters: values far enough apart that the np.isclose-style tolerance of _is_close coincides with equality']
 PARTIAL = [
+    'the component relation inside the bounded theorems is the executable min-label propagation Spec.comp_labels (n rounds / until '
+    'stable), not a path Prop; the path-based statement is part of the unclaimed C15_regions_are_components_full_statement',
     'C15_lossless_full_statement (for EVERY raster: the model\'s polygons rasterise back to the raster, area = cell count, orientation) '
     'is stated and NOT claimed; it is proved only for the bounded domain of C15_bounded_lossless_small and checked by correspondence + oracle beyond it',
     'C15_regions_are_components_full_statement (same region id iff joined by a 4-/8-path of equal unmasked values, for every raster) is '
@@ -571,11 +576,10 @@ def gen_case(rng, combos, big=0.06):
         off = rng.choice([0, 0, 5, 250])
         grid = [[off + v for v in row] for row in grid]
     tr = rng.choice(TRANSFORMS) if with_tr else None
-    family = name
     if tr is not None and rng.random() < 0.3:
         tr = [rng.choice([-2, -1, -0.5, 0, 0.5, 1, 2, 3]) for _ in range(4)] + [rng.randint(-20, 20) / 4.0 for _ in range(2)]
         tr = [tr[0], tr[1], tr[4], tr[2], tr[3], tr[5]]
-    return dict(family=family if family == name else name, ny=ny, nx=nx, values=grid, dtype=dtype, mask=mask, mask_dtype=mask_dtype, mask_kind=mkind,
+    return dict(family=name, ny=ny, nx=nx, values=grid, dtype=dtype, mask=mask, mask_dtype=mask_dtype, mask_kind=mkind,
                 connectivity=rng.choice([4, 8]), transform=None if tr is None else [float(t) for t in tr])
 
 
@@ -606,11 +610,64 @@ def exhaustive_cases(max_cells, max_cells_masked):
 
 
 # ----------------------------------------------------------------------------------------------
+class Watchdog:
+    """The kernels are nogil Numba code: a boundary follower that never returns to its start would hang the check
+    for ever.  A daemon thread turns such a hang into a reported failing input (replay file + VIOLATION line, exit 1)."""
+    LIMIT = 90.0
+    inst = None
+
+    def __init__(self, ctx):
+        import threading
+        self.ctx, self.case, self.t0 = ctx, None, 0.0
+        threading.Thread(target=self.loop, daemon=True).start()
+
+    @classmethod
+    def get(cls, ctx):
+        if cls.inst is None or cls.inst.ctx is not ctx:
+            cls.inst = cls(ctx)
+        return cls.inst
+
+    def loop(self):
+        import json
+        import os
+        import sys
+        import time
+        from harness import common
+        while True:
+            time.sleep(1.0)
+            case = self.case
+            if case is not None and time.time() - self.t0 > self.LIMIT:
+                os.makedirs(os.path.join(common.VERIF, 'replays'), exist_ok=True)
+                path = os.path.join(common.VERIF, 'replays', '%s-%d-hang.json' % (ID, self.ctx.seed))
+                json.dump({'property': ID, 'kind': 'failing-input', 'key': None, 'seed': self.ctx.seed, 'tier': self.ctx.tier,
+                           'what': 'polygonize did not return within %d s on this input (the boundary follower / merge loop '
+                                   'does not terminate)' % self.LIMIT, 'case': common.jsonable(case)}, open(path, 'w'), indent=1)
+                print('VIOLATION property=%s replay=%s' % (ID, path))
+                print('FAIL %s tier=%s seed=%d: implementation hangs, evaluations=%d' % (ID, self.ctx.tier, self.ctx.seed,
+                                                                                      self.ctx.evaluations))
+                sys.stdout.flush()
+                os._exit(1)
+
+    def __enter__(self):
+        import time
+        self.t0 = time.time()
+        return self
+
+    def __exit__(self, *a):
+        self.case = None
+
+    def watch(self, case):
+        self.case = case
+        return self
+
+
 def check_case(ctx, pz, case, pending, use_model=True):
     """implementation + oracle on one case; queues the model comparison"""
     ctx.case(case, nontrivial=case['mask'] is None or any(any(r) for r in case['mask']))
+    wd = Watchdog.get(ctx)
     try:
-        col, polys = run_impl(pz, case, None)
+        with wd.watch(case):
+            col, polys = run_impl(pz, case, None)
     except Exception as e:
         ctx.violation('oracle', 'polygonize raised %s: %s' % (type(e).__name__, e), case)
         return
@@ -621,7 +678,8 @@ def check_case(ctx, pz, case, pending, use_model=True):
     impl_t = None
     if case['transform'] is not None:
         try:
-            colt, polyst = run_impl(pz, case, case['transform'])
+            with wd.watch(case):
+                colt, polyst = run_impl(pz, case, case['transform'])
         except Exception as e:
             ctx.violation('oracle', 'polygonize with transform raised %s: %s' % (type(e).__name__, e), case)
             return
@@ -630,13 +688,14 @@ def check_case(ctx, pz, case, pending, use_model=True):
         exp = [[[(t[0] * Fraction(x) + t[1] * Fraction(y) + t[2], t[3] * Fraction(x) + t[4] * Fraction(y) + t[5])
                  for x, y in ring] for ring in rings] for rings in polys]
         got = [[[(Fraction(x), Fraction(y)) for x, y in ring] for ring in rings] for rings in polyst]
-        if colt != col or got != exp:
+        if len(colt) != len(col) or not all(same_value(a, b) for a, b in zip(colt, col)) or got != exp:
             ctx.violation('oracle', 'transform %r is not applied to every vertex of the untransformed output' % (case['transform'],),
                           dict(case, got_polygons=polyst, untransformed=polys))
     regions = None
     if case['nx'] >= 2:
         try:
-            regions = run_impl_regions(pz, case)
+            with wd.watch(case):
+                regions = run_impl_regions(pz, case)
         except Exception as e:
             ctx.violation('correspondence', '_calculate_regions is no longer callable as (values, mask, connectivity_8, nx, ny): %s' % e, case)
         if regions is not None:
